@@ -454,33 +454,6 @@ mutual
     | c :: rest, k => ([k] :: (pathsOf c).map (k :: ·)) ++ pathsKids rest (k + 1)
 end
 
-/-- Evaluation of the hypotheses of `parent_spec_partial` / `child_with_descendant_spec_partial`
-on a real tree: over every relevant node below the root, `checked` = non-empty nodes whose path
-satisfies `pathOK` (slot ids distinct along the search) and for which
-the ported `ts_node_parent` returns `parentOnPath`; `zeroWidth` = nodes excluded by the
-non-emptiness hypothesis; `bad` = non-empty nodes violating a hypothesis or the conclusion. -/
-structure ParentHyp where
-  checked : Nat := 0
-  zeroWidth : Nat := 0
-  bad : Nat := 0
-  /-- ids of the expected parents (`parentOnPath`) for the link with the flattened tree -/
-  parents : List (Nat × Nat) := []
-
-def parentHyp (lang : Lang) (root : NodeRef) : ParentHyp :=
-  (pathsOf root.t).foldl (init := {}) fun acc p =>
-    match nodeAt lang root p with
-    | none => { acc with bad := acc.bad + 1 }
-    | some d =>
-      if !d.relevant lang true then acc
-      else if d.startByte == d.endByte then { acc with zeroWidth := acc.zeroWidth + 1 }
-      else
-        let exp := parentOnPath lang root root p
-        let okH := root.id != d.id && pathOK lang d.id root p
-        let okC := match nodeParent lang (p.length + 1) root d with
-          | some r => r.id == exp.id
-          | none => false
-        if okH && okC then { acc with checked := acc.checked + 1, parents := (d.id, exp.id) :: acc.parents }
-        else { acc with bad := acc.bad + 1 }
 
 
 /-! ### Runtime side of `next_sibling_spec_partial` (NodeProps.lean) -/
@@ -556,6 +529,36 @@ def psPathOK (lang : Lang) (self : NodeRef) : NodeRef → List Nat → Bool
     match (rawChildren lang n)[k]? with
     | some rc => rest.isEmpty || (rc.node.id != self.id && psPathOK lang self rc.node rest)
     | none => false
+
+/-- Evaluation of the hypotheses of `parent_spec_partial` / `child_with_descendant_spec_partial`
+on a real tree: over every relevant node below the root, `checked` = non-empty nodes whose path
+satisfies `pathOK` (slot ids distinct along the search) and for which
+the ported `ts_node_parent` returns `parentOnPath`; `zeroWidth` = how many of them are empty
+(checked with `psPathOK`, the hypothesis of `parent_spec_empty`); `bad` = non-empty nodes violating a hypothesis or the conclusion. -/
+structure ParentHyp where
+  checked : Nat := 0
+  zeroWidth : Nat := 0
+  bad : Nat := 0
+  /-- ids of the expected parents (`parentOnPath`) for the link with the flattened tree -/
+  parents : List (Nat × Nat) := []
+
+def parentHyp (lang : Lang) (root : NodeRef) : ParentHyp :=
+  (pathsOf root.t).foldl (init := {}) fun acc p =>
+    match nodeAt lang root p with
+    | none => { acc with bad := acc.bad + 1 }
+    | some d =>
+      if !d.relevant lang true then acc
+      else
+        let empty := d.startByte == d.endByte
+        let exp := parentOnPath lang root root p
+        -- a zero-width node needs the stronger id hypothesis of `parent_spec_empty`
+        let okH := root.id != d.id && (if empty then psPathOK lang d root p else pathOK lang d.id root p)
+        let okC := match nodeParent lang (p.length + 1) root d with
+          | some r => r.id == exp.id
+          | none => false
+        if okH && okC then
+          { acc with checked := acc.checked + 1, zeroWidth := acc.zeroWidth + (if empty then 1 else 0), parents := (d.id, exp.id) :: acc.parents }
+        else { acc with bad := acc.bad + 1 }
 
 /-! ### Runtime side of `node_nav_flat_spec` -/
 
